@@ -43,7 +43,7 @@ def judge(rep, scn, out):
     rep.seen('peak_parallel', peak)
     if out.exc is not None:
         rep.foreign[f'run_tasks raised {type(out.exc).__name__}'] += 1
-    report_bad(rep, scn, bad)
+    report_bad(rep, scn, bad, out=out)
     # binding: at some wait more than W in flight, or a type limit held a runnable task back
     binding = any(len(c['inflight']) > out.W for c in out.trace.calls if c['op'] == 'wait')
     if not binding:
